@@ -244,9 +244,14 @@ func checkVerbose(c *core.Ctx, t *gen.Node, s subject, msg string) {
 		case strings.HasSuffix(l.GoType, ".withDetail"):
 			miss("detail", tok(l.Detail))
 		case strings.HasSuffix(l.GoType, ".withIssueLink"):
-			miss("issue", "issue: ")
-			miss("issue-url", tok(l.Link[0]))
-			miss("issue-detail", tok(l.Link[1]))
+			if l.Link[0] != "" {
+				miss("issue", "issue: ")
+				miss("issue-url", tok(l.Link[0]))
+			}
+			if l.Link[1] != "" {
+				miss("issue-detail-label", "detail: ")
+				miss("issue-detail", tok(l.Link[1]))
+			}
 		case strings.HasSuffix(l.GoType, ".unimplementedError"):
 			miss("unimplemented", "unimplemented")
 			miss("issue-url", tok(l.Link[0]))
